@@ -75,7 +75,14 @@ def simfile_text(rng, fmt, codec):
             parts.append("#NOTES:dance-single:%s:Easy:%d:0,0:\n0000\n0000\n%s;\n" % (rand_str(rng, codec), rng.randrange(1, 20), extra))
     if rng.random() < 0.3:
         parts.insert(rng.randrange(len(parts)), "// a comment\n")         # not in the library's canonical layout
-    return "".join(parts)
+    text = "".join(parts)
+    r = rng.random()
+    if r < 0.12:                    # a file written on Windows
+        text = text.replace("\n", "\r\n")
+    elif r < 0.2:                   # ... or edited on both: some line breaks CRLF, the others LF
+        k = rng.randrange(1, 4)
+        text = text.replace("\n", "\r\n", k)
+    return text
 
 
 def undecodable(rng):
@@ -200,13 +207,14 @@ class Scenario:
             self.inner.close()
 
 
-def text_mode_decode(data, enc):
-    """what reading the file in text mode with this encoding gives (universal newlines), or None"""
+def text_mode_decode(data, enc, kind="native"):
+    """what reading the file in text mode with this encoding gives, or None: the native file system reads with universal newlines,
+    PyFilesystem's text mode hands line breaks over as they are"""
     try:
         t = data.decode(enc)
     except UnicodeDecodeError:
         return None
-    return t.replace("\r\n", "\n").replace("\r", "\n")
+    return t if kind == "mem" else t.replace("\r\n", "\n").replace("\r", "\n")
 
 
 def apply_ops(sf, ops):
